@@ -22,7 +22,7 @@ func init() { core.Register(area{}) }
 func (area) Name() string { return "tagfilter" }
 
 // number of deterministic witness cases at the start of every run
-const nWitness = 8
+const nWitness = 9
 
 func (area) Run(c *core.Ctx) error {
 	for i := 0; i < c.N; i++ {
@@ -48,6 +48,10 @@ func (area) Run(c *core.Ctx) error {
 			witnessInsideFlush(c)
 		case i == 7:
 			witnessParked(c)
+		case i == 8:
+			bigDictCase(c, 33000, true)
+		case c.Tier == "thorough" && i >= 11 && i <= 15:
+			bigDictCase(c, []int{32767, 32768, 32769, 40000, 70000}[i-11], i != 15)
 		case i%7 == 0:
 			readerCase(c, r)
 		case c.Tier == "thorough" && i == nWitness+1:
@@ -455,8 +459,15 @@ func (d *dbt) checkDictionary(after string) {
 			if len(extra)+len(missing) > 0 || len(got) != int(ids.GetCardinality()) {
 				sort.Strings(extra)
 				sort.Strings(missing)
-				d.c.Fail("dictionary-ne-written", fmt.Sprintf("after %s: dictionary of %s.%s has %d ids; values not written under the key %q, written values missing %q",
-					after, name, k, ids.GetCardinality(), extra, missing))
+				ne, nm := len(extra), len(missing)
+				if ne > 5 {
+					extra = extra[:5]
+				}
+				if nm > 5 {
+					missing = append(missing[:3:3], missing[nm-2:]...)
+				}
+				d.c.Fail("dictionary-ne-written", fmt.Sprintf("after %s: dictionary of %s.%s has %d ids for %d written values; %d values not written under the key (e.g. %q), %d written values missing (e.g. %q)",
+					after, name, k, ids.GetCardinality(), len(vs), ne, extra, nm, missing))
 			}
 		}
 	}
